@@ -72,6 +72,8 @@ impl<'a> ConnectionMatrix<'a> {
 
     pub fn update(&mut self, left: u16, right: u16, value: i16) {
         let index = self.index(left, right);
+        #[cfg(sudachi_verif)]
+        crate::verif::emit_global("dict_write", serde_json::json!({"what": "conn_update", "left": left, "right": right, "value": value}));
         self.data.set(index, value);
     }
 
